@@ -85,11 +85,16 @@ func (c *Ctx) runFuncBatch(name string, items []pgen.FItem, race bool, n int, bu
 		return out
 	}
 	g := c.Goderive(dir, []string{"./p"})
-	if g.Exit != 0 || g.Crash != "" || g.TimedOut {
+	if g.TimedOut && g.Crash == "" {
+		return fail("timeout", "goderive: wall-clock watchdog fired")
+	}
+	if g.Exit != 0 || g.Crash != "" {
 		return fail("generate", g.Stderr)
 	}
 	if buildOnly {
-		if bl := c.Go(dir, "build", "./p"); bl.Exit != 0 {
+		if bl := c.Go(dir, "build", "./p"); bl.TimedOut {
+			return fail("timeout", "go build: wall-clock watchdog fired")
+		} else if bl.Exit != 0 {
 			return fail("compile", bl.Stderr+bl.Stdout)
 		}
 		var out []*FOutcome
@@ -103,7 +108,9 @@ func (c *Ctx) runFuncBatch(name string, items []pgen.FItem, race bool, n int, bu
 		args = append(args, "-race")
 	}
 	args = append(args, "-o", "h", "./cmd/h")
-	if bl := c.Go(dir, args...); bl.Exit != 0 {
+	if bl := c.Go(dir, args...); bl.TimedOut {
+		return fail("timeout", "go build: wall-clock watchdog fired")
+	} else if bl.Exit != 0 {
 		return fail("compile", bl.Stderr+bl.Stdout)
 	}
 	byID := map[string]*pgen.FItem{}
@@ -139,6 +146,12 @@ func (c *Ctx) runFuncBatch(name string, items []pgen.FItem, race bool, n int, bu
 		if r.Exit == 0 || len(rest) == 0 {
 			for _, id := range rest {
 				outs[id] = &FOutcome{Item: byID[id], Stage: "missing", Stderr: "harness exited without reporting the item", Dir: dir}
+			}
+			break
+		}
+		if r.TimedOut {
+			for _, id := range rest {
+				outs[id] = &FOutcome{Item: byID[id], Stage: "timeout", Stderr: "monitor process: wall-clock watchdog fired", Dir: dir}
 			}
 			break
 		}
